@@ -393,7 +393,8 @@ def full_ring_threshold(repo, res):
             sites.append((m, q, c, _OPS[op]))
     val = [s for s in sites if s[1].startswith("check_")]
     cons = [s for s in sites if not s[1].startswith("check_")]
-    res.require(len(val) >= 1 and len(cons) >= 2, f"R8: anchors vanished (span-vs-360 comparisons: {len(val)} in validators, {len(cons)} in consumers)")
+    # no validator comparison = every ordering is admitted (then `< 360` and `!= 360` no longer agree for spans above 360)
+    res.require(len(cons) >= 2, f"R8: anchors vanished (span-vs-360 comparisons: {len(val)} in validators, {len(cons)} in consumers)")
     admitted = [i for i in range(3) if not any(s[3][i] for s in val)]      # orderings no validator predicate rejects
     parts = {}
     for m, q, c, tt in cons:
@@ -447,7 +448,7 @@ MANIFEST = {
     "text": "Static decision of the unit-bookkeeping clauses of C02: for all 11 field functions and each of B,H,J,M the returned value is typed over "
             "(length, excitation, mu0) and must carry the right power of mu0 (44 obligations, every branch visited once); no second permeability "
             "constant may exist (package-wide constant folding); the magnet setters must cross-assign with the exported mu0 and handle None. "
-            "Mask placement of the +J term and surface points are not decided. Also decided: the region where J/M are kept equals the region where +-J enters B/H in every magnet field function (reaching-definition comparison), and the two excitation attributes are written atomically and on every normal setter exit.",
+            "Mask placement of the +J term and surface points are not decided. Also decided: the region where J/M are kept equals the region where +-J enters B/H in every magnet field function (reaching-definition comparison), and the two excitation attributes are written atomically and on every normal setter exit. Round 3: every comparison of the CylinderSegment angular span with 360 partitions the admitted spans alike across validator, field code and display (R8, finite orderings).",
     "design_ref": "DESIGN.md §3 C02",
     "note": "Trusted: abstract interpreter + NumPy transfer table, declared parameter dimensions, one literal annotation (1e-7 = mu0/4pi), one triaged pure-number constant.",
     "technique": "static analysis: dimension-typing abstract interpretation, constant folding, def-use None-flow",
